@@ -771,3 +771,118 @@ pub fn gen_shapes(asm: &Asm, mach: &mut Mach, rng: &mut Rng, sh: &mut Shards, pa
     }
     sh.count("shapes", n);
 }
+
+// ---------------------------------------------------------------------------------------------
+// C13: macro libraries (built and expanded by TLC, spec/MC_Macro.tla) against the real assembler
+// ---------------------------------------------------------------------------------------------
+fn toks(v: &Value) -> String {
+    v.as_array().unwrap().iter().map(|t| t.as_str().unwrap().to_string()).collect::<Vec<_>>().join(" ")
+}
+
+fn unit_src(u: &Value) -> String {
+    if u["k"] == "ins" {
+        toks(&u["toks"])
+    } else {
+        let args: Vec<String> = u["args"].as_array().unwrap().iter().map(toks).collect();
+        format!("{} ({})", u["name"].as_str().unwrap(), args.join(", "))
+    }
+}
+
+pub fn gen_macros(asm: &Asm, sh: &mut Shards, path: &str) {
+    let text = std::fs::read_to_string(path).expect("macro case file");
+    let header = "t:\ntt:\nttt:\n";
+    for line in text.lines() {
+        if line.trim().is_empty() {
+            continue;
+        }
+        let j: Value = serde_json::from_str(line).expect("macro case json");
+        let mut src = String::from(header);
+        for m in j["lib"].as_array().unwrap() {
+            let params: Vec<String> = m["params"].as_array().unwrap().iter().map(|p| p.as_str().unwrap().to_string()).collect();
+            let body: Vec<String> = m["body"].as_array().unwrap().iter().map(unit_src).collect();
+            src.push_str(&format!("macro {}({}) -> {} <-\n", m["name"].as_str().unwrap(), params.join(", "), body.join(" ")));
+        }
+        let uargs: Vec<String> = j["use"]["args"].as_array().unwrap().iter().map(toks).collect();
+        let use_text = format!("{}({})", j["use"]["name"].as_str().unwrap(), uargs.join(", "));
+        src.push_str("start:\n");
+        src.push_str(&use_text);
+        src.push_str("\nnop\n");
+        let mut reference = String::from(header);
+        reference.push_str("start:\n");
+        for ins in j["code"].as_array().unwrap() {
+            reference.push_str(&toks(ins));
+            reference.push('\n');
+        }
+        reference.push_str("nop\n");
+        let a = asm.assemble(&src);
+        let b = asm.assemble(&reference);
+        let (macro_ok, macro_code, macro_err) = match &a { Ok(x) => (true, x.out.code.clone(), String::new()), Err(e) => (false, vec![], e.chars().take(200).collect()) };
+        let (ref_ok, ref_code) = match &b { Ok(x) => (true, x.out.code.clone()), Err(_) => (false, vec![]) };
+        let err = j["err"].as_str().unwrap_or("");
+        sh.count(&format!("macro-case:{}", if err.is_empty() { "expands" } else { err }), 1);
+        sh.unit(&[json!({"ev":"macro","err":err,"macro_ok":macro_ok,"ref_ok":ref_ok,"same":macro_code == ref_code,
+                         "src":src,"macro_code":macro_code,"ref_code":ref_code,"diag":macro_err})]);
+    }
+}
+
+/// a chain of `depth` macros, each using the next; run in a child process (`vh chain N`) because a
+/// stack overflow aborts the process
+pub fn chain_source(depth: usize) -> (String, String) {
+    let mut s = String::new();
+    for i in 0..depth {
+        if i + 1 < depth {
+            s.push_str(&format!("macro ch{}(r, v) -> ch{} (r, v) <-\n", i, i + 1));
+        } else {
+            s.push_str(&format!("macro ch{}(r, v) -> mov r, v inc r <-\n", i));
+        }
+    }
+    s.push_str("start:\nch0(bx, 41)\n");
+    (s, "start:\nmov bx, 41\ninc bx\n".to_string())
+}
+
+pub fn chain_child(depth: usize) {
+    let asm = Asm::new();
+    let (s, r) = chain_source(depth);
+    let a = asm.assemble(&s);
+    let b = asm.assemble(&r);
+    match (a, b) {
+        (Ok(x), Ok(y)) => {
+            println!("{}", json!({"ok": true, "same": x.out.code == y.out.code}));
+        }
+        (Err(e), _) => println!("{}", json!({"ok": false, "err": e.chars().take(200).collect::<String>()})),
+        (_, Err(e)) => println!("{}", json!({"ok": false, "err": format!("reference refused: {}", e)})),
+    }
+}
+
+pub fn gen_chains(sh: &mut Shards, depths: &[usize]) {
+    let exe = std::env::current_exe().unwrap();
+    for d in depths {
+        let t0 = std::time::Instant::now();
+        let mut child = std::process::Command::new(&exe).arg("chain").arg(d.to_string()).stdout(std::process::Stdio::piped()).stderr(std::process::Stdio::null()).spawn().unwrap();
+        let mut timeout = false;
+        let status = loop {
+            match child.try_wait() {
+                Ok(Some(st)) => break st.code().unwrap_or(-1),
+                Ok(None) => {
+                    if t0.elapsed() > std::time::Duration::from_secs(120) {
+                        timeout = true;
+                        let _ = child.kill();
+                        let _ = child.wait();
+                        break -2;
+                    }
+                    std::thread::sleep(std::time::Duration::from_millis(5));
+                }
+                Err(_) => break -3,
+            }
+        };
+        let mut out = String::new();
+        if let Some(mut so) = child.stdout.take() {
+            use std::io::Read;
+            let _ = so.read_to_string(&mut out);
+        }
+        let res: Value = serde_json::from_str(out.trim()).unwrap_or(json!({}));
+        sh.count("macro-chains", 1);
+        sh.unit(&[json!({"ev":"chain","depth":d,"status":status,"timeout":timeout,"ok":res.get("ok").and_then(|x| x.as_bool()).unwrap_or(false),
+                         "same":res.get("same").and_then(|x| x.as_bool()).unwrap_or(false),"err":res.get("err").cloned().unwrap_or(json!("")),"ms":t0.elapsed().as_millis() as u64})]);
+    }
+}
